@@ -117,7 +117,7 @@ theorem eff_inv (s : St) (e : Ev) (hp : pre s e = none) (h : Inv s) : Inv (eff s
         have hfr := h.fresh k' hk
         rw [htag.2] at hfr; exact absurd hfr.2.2 (by simp)
       · next hne => rw [if_neg hne]; exact h.fresh k' hk
-  case hdr t rid tag ok =>
+  case hdr t rid tag size ok =>
     cases ok with
     | false => simpa [effHdr] using h
     | true =>
@@ -331,11 +331,13 @@ theorem run_inv (s s' : St) (evs : List Ev) (h : Inv s) (hr : run s evs = .ok s'
 theorem reachable_inv (evs : List Ev) (s : St) (hr : run {} evs = .ok s) : Inv s := run_inv {} s evs inv_init hr
 
 /-- **C11, a successful call has received exactly its own response.** If `do_call` returns `r > 0` in a reachable
-    state, then a response `rid` was collected into this call's buffer, `r` is the size of that body, the header of
+    state, then a response `rid` was collected into this call's buffer, `r` is the size of that body and the whole body
+    announced by the header was received (`full`), the header of
     `rid` carried the tag this call's request was sent with, and the bytes the caller sees are those of `rid`. -/
 theorem C11_success_has_own_response (s s' : St) (t k : Nat) (r : Int) (content : Option Nat)
     (hi : Inv s) (h : step s (.ret t k r content) = .ok s') (hr : 0 < r) :
-    ∃ rid tag, (s.call k).got = some (rid, r) ∧ content = some rid ∧ (rid, tag) ∈ s.hdrs ∧ (s.call k).tag = some tag := by
+    ∃ rid tag, (s.call k).got = some (rid, r) ∧ content = some rid ∧ (rid, tag) ∈ s.hdrs ∧ (s.call k).tag = some tag ∧
+      (s.call k).full = true := by
   obtain ⟨hp, _⟩ := step_ok s s' _ h
   simp only [pre, preRet] at hp
   split at hp
@@ -355,13 +357,16 @@ theorem C11_success_has_own_response (s s' : St) (t k : Nat) (r : Int) (content 
             subst hnr
             split at hp
             · exact absurd hp (by simp)
-            · next hc =>
-              have hcont : content = some rid := by
-                by_cases c : content = some rid
-                · exact c
-                · exact absurd ⟨hr, c⟩ hc
-              obtain ⟨tag, hm, htg⟩ := hi.got_hdr k rid n hgot
-              exact ⟨rid, tag, hgot, hcont, hm, htg⟩
+            · next hfull =>
+              split at hp
+              · exact absurd hp (by simp)
+              · next hc =>
+                have hcont : content = some rid := by
+                  by_cases c : content = some rid
+                  · exact c
+                  · exact absurd ⟨hr, c⟩ hc
+                obtain ⟨tag, hm, htg⟩ := hi.got_hdr k rid n hgot
+                exact ⟨rid, tag, hgot, hcont, hm, htg, by simpa using hfull⟩
 
 /-- a successful empty response (`r = 0`) was collected too -/
 theorem C11_success_collected (s s' : St) (t k : Nat) (r : Int) (content : Option Nat)
@@ -545,20 +550,25 @@ theorem C11_queue_drains (s s' : St) (q : Nat) (h : step s (.final q) = .ok s') 
     follower returns, then the body read into its buffer ends) is rejected … -/
 theorem C11_f4_witness_rejected :
     (run {} [.call 1 1 none, .sent 1 1 1 true, .call 2 2 (some 20000), .sent 2 2 2 true,
-             .tick 1000, .hdr 1 2 2 true, .bodyBegin 1 2, .tick 20000, .ret 2 2 (-1) none]).isOk = false := by decide
+             .tick 1000, .hdr 1 2 2 16 true, .bodyBegin 1 2, .tick 20000, .ret 2 2 (-1) none]).isOk = false := by decide
 
 /-- … and the repaired behaviour (the follower waits for the reader to finish, then returns) is accepted;
     this also shows the hypotheses of the theorems above are satisfiable -/
 example :
     (run {} [.call 1 1 none, .sent 1 1 1 true, .call 2 2 (some 20000), .sent 2 2 2 true,
              .quiescent 0 2 false true,
-             .tick 1000, .hdr 1 2 2 true, .bodyBegin 1 2, .quiescent 0 1 false true, .tick 20000, .tick 60000,
+             .tick 1000, .hdr 1 2 2 16 true, .bodyBegin 1 2, .quiescent 0 1 false true, .tick 20000, .tick 60000,
              .bodyEnd 1 2 2 16, .intr 2 1, .ret 2 2 16 (some 2),
-             .hdr 1 1 1 true, .bodyBegin 1 1, .bodyEnd 1 1 1 16, .ret 1 1 16 (some 1), .final 0]).isOk = true := by decide
+             .hdr 1 1 1 16 true, .bodyBegin 1 1, .bodyEnd 1 1 1 16, .ret 1 1 16 (some 1), .final 0]).isOk = true := by decide
+
+/-- a success reported for a body that was cut short by end-of-stream is rejected -/
+example :
+    (run {} [.call 1 1 none, .sent 1 1 1 true, .hdr 1 1 1 64 true, .bodyBegin 1 1, .bodyEnd 1 1 1 20,
+             .ret 1 1 20 (some 1)]).isOk = false := by decide
 
 /-- a response collected into the buffer of a call with a different tag is rejected -/
 example :
     (run {} [.call 1 1 none, .sent 1 1 1 true, .call 2 2 none, .sent 2 2 2 true,
-             .hdr 1 7 2 true, .bodyBegin 1 1]).isOk = false := by decide
+             .hdr 1 7 2 16 true, .bodyBegin 1 1]).isOk = false := by decide
 
 end Photon.Rpc
